@@ -204,6 +204,93 @@ def analyzer_cross(R, histories_done):
         logging.disable(logging.NOTSET)
 
 
+MODE_SPELLINGS = ["relative", "absolute", "RELATIVE", "Absolute", "rel", "abs", "inc", "incremental", "G91", "G90", "g91", "91", "r", "a",
+                  "relative ", "rel.", "increment", "delta", "offset", "abs.", "absolute mode"]
+
+
+def core_class_cases(R, n):
+    """oracle-only: the same motion API on the base class `GCodeCore` (no state object, no hooks, its own `set_distance_mode`), with
+    the distance mode selected by enum member, by its documented value and by look-alike spellings (accepted or refused -
+    either way the emitted program must agree with what the object reports)."""
+    from gscrib import GCodeCore
+    from gscrib.enums import DistanceMode
+    from gscrib.writers import BaseWriter
+
+    class Rec(BaseWriter):
+        def __init__(self):
+            self.lines = []
+        def connect(self):
+            return self
+        def disconnect(self, wait=True):
+            pass
+        def flush(self):
+            pass
+        def write(self, b):
+            self.lines.append(bytes(b).decode("utf-8"))
+
+    for _ in range(n):
+        r = R.rng
+        g = GCodeCore(output=None, print_lines=False, line_endings="\n")
+        w = Rec()
+        g.add_writer(w)
+        calls, ctx = [], []
+        pos, rel, k = {"X": None, "Y": None, "Z": None}, False, 0
+        R.evaluations += 1
+        R.count("core-class")
+        bad = None
+        for _step in range(r.randint(4, 20)):
+            c = r.random()
+            axes = {a: r.randint(-320, 320) / 32 for a in r.sample("xyz", r.randint(1, 3))}
+            try:
+                if c < 0.45:
+                    name = r.choice(["move", "rapid"])
+                    calls.append(f"{name} {axes}")
+                    getattr(g, name)(**axes)
+                elif c < 0.6:
+                    name = r.choice(["move_absolute", "rapid_absolute"])
+                    calls.append(f"{name} {axes}")
+                    getattr(g, name)(**axes)
+                elif c < 0.9:
+                    m = r.choice([DistanceMode.RELATIVE, DistanceMode.ABSOLUTE, "relative", "absolute"] + [r.choice(MODE_SPELLINGS)] * 3)
+                    calls.append(f"set_distance_mode {m!r}")
+                    R.count("core-class:mode-by-" + ("member" if isinstance(m, DistanceMode) else "value" if m in ("relative", "absolute") else "look-alike"))
+                    g.set_distance_mode(m)
+                elif c < 0.96 or not ctx:
+                    cm = g.relative_mode() if r.random() < 0.5 else g.absolute_mode()
+                    calls.append("enter " + ("relative_mode" if cm is not None and len(calls) % 2 else "mode context"))
+                    cm.__enter__()
+                    ctx.append(cm)
+                else:
+                    calls.append("exit")
+                    ctx.pop().__exit__(None, None, None)
+            except Exception as e:  # noqa  (a refused call: nothing may have been written - judged below like any other call)
+                calls[-1] += f" -> {type(e).__name__}"
+            for raw in w.lines[k:]:
+                code = raw.split(";", 1)[0].strip().upper()
+                ws = _WORD.findall(code)
+                if not ws or ws[0][0] != "G":
+                    continue
+                gn, args = float(ws[0][1]), {a: float(v) for a, v in ws[1:] if a in pos}
+                if gn == 90:
+                    rel = False
+                elif gn == 91:
+                    rel = True
+                elif gn in (0, 1):
+                    for a, v in args.items():
+                        pos[a] = (None if pos[a] is None else pos[a] + v) if rel else v
+            k = len(w.lines)
+            if bool(g.distance_mode.is_relative) != rel:
+                bad = f"after `{calls[-1]}` the program leaves the machine in relative={rel} mode, the object reports {g.distance_mode.value}"
+            else:
+                for a, v in zip("XYZ", g.position):
+                    if pos[a] is not None and (v is None or abs(v - pos[a]) > 1e-4 * (1 + len(calls))):
+                        bad = f"after `{calls[-1]}` the machine is at {a}={pos[a]}, the object reports {v}"
+                        break
+            if bad:
+                R.fail({"class": "GCodeCore", "calls": list(calls), "emitted": [l.strip() for l in w.lines]}, bad, tag="core-class")
+                break
+
+
 def run(R: core.Run):
     R.rule = ("random call histories (5-40 calls) over move/rapid/move_absolute/rapid_absolute/set_axis/auto_home/probe/"
               "set_distance_mode/mode context managers with any subset of x/y/z per call, on the exact dyadic grid; a second "
@@ -221,7 +308,12 @@ def run(R: core.Run):
     bc.correspond(R, histories(R, R.n(300, 4000), offgrid=True), KEYS, False, "offgrid", tol_oracle)
     bc.correspond(R, trace_histories(R, R.n(100, 3000)), KEYS, False, "tracer", tol_oracle)
     # the cross-oracle the property names: the library's own analyzer fed the emitted lines (oracle only)
-    analyzer_cross(R, [bc.run_impl(h) for h in histories(R, R.n(250, 4000)) + histories(R, R.n(80, 1000), offgrid=True)])
+    core_class_cases(R, R.n(300, 4000))
+    hs = histories(R, R.n(250, 4000)) + histories(R, R.n(80, 1000), offgrid=True)
+    for h in hs:        # axis resets that name no linear axis at all (rotary / auxiliary axes only, or nothing): the position stays put
+        if R.rng.random() < 0.5:
+            h.insert(R.rng.randint(min(2, len(h)), len(h)), R.rng.choice(["setaxis A:0", "setaxis B:1 C:2", "setaxis U:0", "setaxis A:-5/2", "setaxis"]))
+    analyzer_cross(R, [bc.run_impl(h) for h in hs])
     lowdp = [[f"cfg dp={R.rng.choice([0, 1, 2, 3])}"] + h for h in histories(R, R.n(150, 3000))]
     bc.correspond(R, lowdp, KEYS, False, "low-decimal-places", tol_oracle)
     # the formatter's precision changes mid-program (raised and lowered); coordinates are re-used across the change
